@@ -2041,6 +2041,9 @@ void sexp_push_utf8_char (sexp ctx, int i, sexp port) {
     while (len>0)
       ungetc(ch[--len], sexp_port_stream(port));
   } else {
+    /* a truncated sequence consumed fewer bytes than its lead byte announces */
+    if ((sexp_uint_t)len > sexp_port_offset(port))
+      len = sexp_port_offset(port);
     while (len>0)
       sexp_port_buf(port)[--sexp_port_offset(port)] = ch[--len];
   }
